@@ -21,6 +21,17 @@ CHECKS = {
             'available to rebuild them). Lines on which elimination without pivoting has a (near-)zero pivot get a proportionally wider tolerance '
             'and are counted in evidence. delj-on references are float (exp); quick tier thins the parameter lattice (cap reported).',
             'DESIGN.md §3 C02'),
+    'C03': ('model_checking',
+            'exhaustive enumeration of all programs of a dadi-program grammar up to a length bound, each executed at 7 reference-size factors with every intermediate density compared; superposition on every integration op x unit density',
+            'Every well-formed sequence of public density-level calls (equilibrium with and without selection, constant / exponential / linear '
+            'size integration with migration, selection, frozen populations, splits, admixture, pulses, removal, reordering, sampling) up to the '
+            'length bound is run on the real library at c in {1/16,1/2,2,16} (tolerance 1e-12: same floating-point operations up to exact scaling) '
+            'and {0.05,3,20} (1e-9) with sizes and times multiplied and rates, selection and theta0 divided by c; every intermediate density and '
+            'the spectrum must be unchanged. Superposition in (phi, theta0) is checked on every integration op of the alphabet, every frozen and '
+            'nomut pattern, for every unit density against a dense one, 4 coefficient pairs x 9 theta pairs.',
+            'Program alphabet is finite (mc/programs.py): 4 equilibria, 4-5 integration ops per dimension, one proportion vector per admixture op; '
+            'quick tier bounds program length at 3 (1-3 populations) / 2 (4-5 populations), thorough 4 / 3.',
+            'DESIGN.md §3 C03'),
     'C04': ('model_checking',
             'exhaustive enumeration of frozen/nomut patterns x subsets of populations x parameter lattice x driver kind, each on every unit density, with a kernel-level replay of the driver loop and exact conservation identities as oracle',
             'For 2-5 populations every frozen pattern (2^d), nomut pattern (2-D), size/selection/migration/step-count combination and both driver '
